@@ -360,7 +360,7 @@ theorem semRest : ∀ (ops : FOps F) (hlaw : ModLaw ops) (ρ : PEnv F) (rest : R
         cases b with
         | true =>
           simp only at h
-          exact semRest ops hlaw ρ rest lv ty _ (.bool true) v hcr hwr (by rw [stepO_or]; exact cEvalO_or_true ops ρ hacc) h
+          exact semRest ops hlaw ρ rest lv _ _ (.bool true) v hcr hwr (by rw [stepO_or]; exact cEvalO_or_true ops ρ hacc) h
         | false =>
           simp only at h
           cases he : pyEval ops ρ e with
@@ -372,7 +372,7 @@ theorem semRest : ∀ (ops : FOps F) (hlaw : ModLaw ops) (ρ : PEnv F) (rest : R
             | flt x => cases h
             | bool b' =>
               simp only at h
-              exact semRest ops hlaw ρ rest lv ty _ (.bool b') v hcr hwr (by rw [stepO_or]; exact cEvalO_or_false ops ρ hacc (hE _ he)) h
+              exact semRest ops hlaw ρ rest lv _ _ (.bool b') v hcr hwr (by rw [stepO_or]; exact cEvalO_or_false ops ρ hacc (hE _ he)) h
     · by_cases ha : op = .and
       · subst ha
         simp only [pyEvalRest] at h
@@ -383,7 +383,7 @@ theorem semRest : ∀ (ops : FOps F) (hlaw : ModLaw ops) (ρ : PEnv F) (rest : R
           cases b with
           | false =>
             simp only at h
-            exact semRest ops hlaw ρ rest lv ty _ (.bool false) v hcr hwr (by rw [stepO_and]; exact cEvalO_and_false ops ρ hacc) h
+            exact semRest ops hlaw ρ rest lv _ _ (.bool false) v hcr hwr (by rw [stepO_and]; exact cEvalO_and_false ops ρ hacc) h
           | true =>
             simp only at h
             cases he : pyEval ops ρ e with
@@ -395,12 +395,12 @@ theorem semRest : ∀ (ops : FOps F) (hlaw : ModLaw ops) (ρ : PEnv F) (rest : R
               | flt x => cases h
               | bool b' =>
                 simp only at h
-                exact semRest ops hlaw ρ rest lv ty _ (.bool b') v hcr hwr (by rw [stepO_and]; exact cEvalO_and_true ops ρ hacc (hE _ he)) h
+                exact semRest ops hlaw ρ rest lv _ _ (.bool b') v hcr hwr (by rw [stepO_and]; exact cEvalO_and_true ops ρ hacc (hE _ he)) h
       · have hgen : ∀ r v', pyEval ops ρ e = .ok r → ¬(op = .mod ∧ (pty.isFloat || ty.isFloat) ≠ (acc.isF || r.isF)) →
-            pyBin2 ops op acc r = .ok v' → pyEvalRest ops ρ v' ty rest = .ok v →
-            cEvalO ops ρ (oRestG false (stepO op d pty ty accO (oOfG false e)) ty rest) = .ok v.repr := by
+            pyBin2 ops op acc r = .ok v' → pyEvalRest ops ρ v' (pty.acc ty) rest = .ok v →
+            cEvalO ops ρ (oRestG false (stepO op d pty ty accO (oOfG false e)) (pty.acc ty) rest) = .ok v.repr := by
           intro r v' he htag hb hrest
-          exact semRest ops hlaw ρ rest lv ty _ v' v hcr hwr (step_c ops hlaw ρ hcpp ho ha hacc (hE r he) htag hb) hrest
+          exact semRest ops hlaw ρ rest lv _ _ v' v hcr hwr (step_c ops hlaw ρ hcpp ho ha hacc (hE r he) htag hb) hrest
         cases op <;> first
           | exact absurd rfl ho
           | exact absurd rfl ha
